@@ -84,6 +84,9 @@ func (ex *Exec) execBlock(stmts []ast.Stmt) ctl {
 
 func (ex *Exec) execStmt(s ast.Stmt) ctl {
 	ex.steps++
+	if s != nil && len(ex.frames) == 1 {
+		ex.lastWhere = ex.where(s)
+	}
 	if ex.steps > 2000000 {
 		ex.unsupported("step limit exceeded")
 	}
@@ -387,6 +390,22 @@ func (ex *Exec) execRange(s *ast.RangeStmt) ctl {
 		n = sv.Len
 		es := leafCount(u.Elem())
 		elemAt = func(i int) Value { return ex.load(sv.Obj, sv.Off+i*es, u.Elem()) }
+	case *types.Pointer:
+		// range over a pointer to an array: the elements are read through the pointer as the loop goes
+		at, ok := u.Elem().Underlying().(*types.Array)
+		if !ok {
+			ex.unsupported("range over %s", xt)
+		}
+		pv, ok := ex.eval(s.X).(PtrV)
+		if !ok || pv.Obj == nil {
+			if s.Value != nil {
+				ex.oblige("safety", "nil-deref@"+ex.where(s), BoolC(false), "range over a nil array pointer with a value variable")
+				panic(pathEnd{"nil array pointer"})
+			}
+		}
+		n = int(at.Len())
+		es := leafCount(at.Elem())
+		elemAt = func(i int) Value { return ex.load(pv.Obj, pv.Off+i*es, at.Elem()) }
 	case *types.Array:
 		l := ex.lvalue(s.X)
 		n = int(u.Len())
